@@ -1,5 +1,8 @@
 """C11 - list views of a field read the exact values and write back only what changed (Engine B + A)."""
+import contextlib
+import io
 import itertools
+import sys
 
 from .. import core
 
@@ -8,7 +11,10 @@ LEVEL = "model_checking"
 RULE = ("field values = all concatenations of <= L layout pieces (words, blanks, tabs, separators, continuation breaks, "
         "comment lines) that form a valid non-empty field; states = distinct value layouts (reads) plus distinct "
         "(layout, edit history) pairs, transitions = one list edit applied to model and implementation, traces = "
-        "complete edit histories followed by dump + fresh parse; non-trivial = layouts with >= 2 values or a line break")
+        "complete edit histories followed by dump + fresh parse; non-trivial = layouts with >= 2 values or a line break.  "
+        "Route units: the same reads and histories with one of ROUTES (document shape, way of obtaining the list object, block "
+        "style) in place of the default route; extra units: histories that use references taken at the start of a block, layout "
+        "calls ahead of an append, and reformatting on write-back (non-trivial there = accepted edits)")
 BUDGET = {"quick": 240, "thorough": 3000}
 
 
@@ -18,13 +24,48 @@ def bounds(tier):
             "edit_depth_1_layout_pieces": 4 if tier == "quick" else 5,
             "edit_depth_2_layout_pieces": 3 if tier == "quick" else 4,
             "edit_depth_3_layout_pieces": 0 if tier == "quick" else 2,
-            "edits": "append, remove(v), replace(v,z), ref.value=z, ref.remove(); depth 2 inside one `with` block and across two, through fresh view objects, one shared view object, two alternating view objects, and with the first block aborted by an exception"}
+            "edits": "append, remove(v), replace(v,z), ref.value=z, ref.remove(); depth 2 inside one `with` block and across two, through fresh view objects, one shared view object, two alternating view objects, and with the first block aborted by an exception",
+            "routes": "every (document shape, way of obtaining the list, block style) of ROUTES, one at a time against the same "
+                      "oracle as the default route: reads on all layouts of <= %d pieces; sessions that change nothing and every "
+                      "single edit on all layouts of <= %d pieces; where one list object is entered again for a second block, every "
+                      "second edit as well (pure route: layouts of <= %d pieces, combined routes: <= %d); elsewhere a block left by "
+                      "an exception followed by the same edit (layouts of <= %d pieces); after every block all ways of dumping "
+                      "(dump(), dump(fd), convert_to_text(), iter_parts, paragraph.dump(), paragraph.dump(fd), the field's own "
+                      "text) must agree and the closed list object must still read the edited list"
+                      % ((3, 2, 2, 1, 1) if tier == "quick" else (4, 3, 3, 2, 2)),
+            "route_list": ["+".join(r) for r in ROUTES],
+            "early_references": "value references taken once at the start of a block and used after other edits: "
+                                "[e1, ref-edit] for every edit e1 and every reference still alive, then every surviving "
+                                "reference read; layouts of <= %d pieces" % (3 if tier == "quick" else 4),
+            "reformatting": "reformat_when_finished() / value_formatter(custom one-line formatter, force_reformat) followed by "
+                            "no edit or any single edit (layouts with >= 1 value, <= %d pieces; two blocks at <= %d pieces): "
+                            "values, other fields and validity are judged exactly as without reformatting; "
+                            "value_formatter(f) without force and without an edit must leave the document byte-identical"
+                            % ((3, 2) if tier == "quick" else (4, 3)),
+            "append_after_layout_calls": "append_separator() / append_separator(space_after_separator=False) / append_newline() / "
+                                         "append_comment() / newline+comment, each followed by append(z): layouts of <= %d pieces"
+                                         % (3 if tier == "quick" else 4)}
 
 
 def assumptions():
     return ["value = text after 'F:' up to the end of the field; comment lines dropped; comma list items stripped",
             "empty / whitespace-only field values are outside the domain", "removing the last remaining value may be "
-            "rejected with ValueError", "continuation lines must contain non-blank text (deb822 syntax)"]
+            "rejected with ValueError", "continuation lines must contain non-blank text (deb822 syntax)",
+            "routes: in the shapes 'assigned' and 'built' the list field is written through the dict interface first, which "
+            "trims the first line of the value (documented); the list is judged on the text the document then has",
+            "routes: a list obtained with discard_comments_on_read=False is compared with the oracle only for values without "
+            "comment lines (the statement's values ignore comment lines; that option is documented to keep them)",
+            "routes: items()/values() of a view resolve a repeated name to its first occurrence, so the second occurrence of a "
+            "duplicated list field is reached through (name, 1), (name, -1), get(), its name token or the field element only",
+            "routes: one list object re-entered for a second block is used only after blocks that ended normally (a block left "
+            "by an exception keeps its unwritten edits in the list object; the statement does not say what a later block on "
+            "that same object writes)",
+            "reformatting: sort()/sort_elements() are outside the statement (it speaks of appending, removing and replacing); "
+            "reformatting a list that has no value would produce an empty field and is not enumerated",
+            "early references: only references to values that were not removed are read back; a reference whose value was "
+            "removed through the list is documented as invalidated",
+            "LIST_UPLOADERS_INTERPRETATION is a third interpretation with its own splitting rule and is not covered by the "
+            "statement (whitespace- or comma-separated)"]
 
 
 PIECES = {
@@ -97,7 +138,14 @@ def units(tier, seed):
             out.append({"interp": interp, "first": first})
         cs = sweep_chars(interp)
         out += [{"interp": interp, "sweep": cs[i:i + 25]} for i in range(0, len(cs), 25)]
+    for interp in ("ws", "comma"):
+        out += [{"interp": interp, "route": list(r)} for r in ROUTES[1:]]
+        out += [{"interp": interp, "extra": first} for first in PIECES[interp](seed)]
     return out
+
+
+def unit_cost(u, tier):
+    return 1 if "sweep" in u or "route" in u else 3 if "extra" in u else 10
 
 
 def edits_for(vals, interp):
@@ -113,40 +161,79 @@ def edits_for(vals, interp):
         yield ("refremove", i)
 
 
-def model_edit(vals, e):
+PRE_APPEND = ("sep", "sep-nospace", "nl", "comment", "nl+comment")
+
+
+def model_edit(vals, e, ids=None):
+    """-> (new list of values, parallel list of identities: the position at the start of the block for the values that
+    were there, None for values added since)"""
     vals = list(vals)
-    if e[0] == "refread":
-        return vals
-    if e[0] == "append":
+    ids = list(ids) if ids is not None else [None] * len(vals)
+    k = e[0]
+    if k in ("refread", "eref-read"):
+        pass
+    elif k == "append" or k.startswith("append-after-"):
         vals.append(e[1])
-    elif e[0] == "remove":
-        vals.remove(e[1])
-    elif e[0] == "replace":
+        ids.append(None)
+    elif k == "remove":
+        i = vals.index(e[1])
+        del vals[i], ids[i]
+    elif k == "replace":
         vals[vals.index(e[1])] = e[2]
-    elif e[0] == "refset":
+    elif k == "refset":
         vals[e[1]] = e[2]
-    elif e[0] == "refremove":
-        del vals[e[1]]
-    return vals
+    elif k == "refremove":
+        del vals[e[1]], ids[e[1]]
+    elif k == "eref-set":
+        vals[ids.index(e[1])] = e[2]
+    elif k == "eref-remove":
+        i = ids.index(e[1])
+        del vals[i], ids[i]
+    else:
+        raise KeyError(k)
+    return vals, ids
 
 
-def impl_edit(lst, e):
-    if e[0] == "refread":
+def impl_edit(lst, e, erefs=None, evals=None):
+    k = e[0]
+    if k == "refread":
         got = [r.value for r in lst.iter_value_references()]
         want = list(lst)
         if got != want:
             raise AssertionError("values read through references %r differ from the list %r" % (got, want))
         return
-    if e[0] == "append":
+    if k == "append":
         lst.append(e[1])
-    elif e[0] == "remove":
+    elif k.startswith("append-after-"):
+        pre = k[len("append-after-"):]
+        if pre == "sep":
+            lst.append_separator()
+        elif pre == "sep-nospace":
+            lst.append_separator(space_after_separator=False)
+        if pre in ("nl", "nl+comment"):
+            lst.append_newline()
+        if pre in ("comment", "nl+comment"):
+            lst.append_comment("k")
+        lst.append(e[1])
+    elif k == "remove":
         lst.remove(e[1])
-    elif e[0] == "replace":
+    elif k == "replace":
         lst.replace(e[1], e[2])
-    elif e[0] == "refset":
+    elif k == "refset":
         list(lst.iter_value_references())[e[1]].value = e[2]
-    elif e[0] == "refremove":
+    elif k == "refremove":
         list(lst.iter_value_references())[e[1]].remove()
+    elif k == "eref-set":
+        erefs[e[1]].value = e[2]
+    elif k == "eref-remove":
+        erefs[e[1]].remove()
+    elif k == "eref-read":
+        # evals: {identity: value the model expects} for the references whose values are still in the list
+        got = {i: erefs[i].value for i in sorted(evals)}
+        if got != evals:
+            raise AssertionError("values read through references taken at the start of the block: %r, expected %r" % (got, evals))
+    else:
+        raise KeyError(k)
 
 
 def _interp(name):
@@ -154,104 +241,306 @@ def _interp(name):
     return LIST_SPACE_SEPARATED_INTERPRETATION if name == "ws" else LIST_COMMA_SEPARATED_INTERPRETATION
 
 
-def _parse(text):
+def _parse(text, dup=False):
     from debian._deb822_repro import parse_deb822_file
-    return parse_deb822_file(text.splitlines(True), accept_files_with_error_tokens=True)
+    return parse_deb822_file(text.splitlines(True), accept_files_with_error_tokens=True,
+                             accept_files_with_duplicated_fields=dup)
+
+
+# document shapes: text before the list field, text after its value, keys of its paragraph, index of that paragraph,
+# number of paragraphs, key of the list field, text of the document before / after that paragraph
+SHAPES = {
+    "mid": ("X: 1\n", "\nY: 2\n", ["X", "F", "Y"], 0, 1, "F", "", ""),
+    "last-open": ("X: 1\n", "", ["X", "F"], 0, 1, "F", "", ""),
+    "mid-par": ("P: 0\n\nX: 1\n", "\nY: 2\n\n#c\nQ: 9\n", ["X", "F", "Y"], 1, 3, "F", "P: 0\n\n", "\n#c\nQ: 9\n"),
+    "dup-other": ("X: 1\n", "\nY: 2\nX: 3\n", ["X", "F", "Y", "X"], 0, 1, "F", "", ""),
+    "dup-F": ("F: k\nX: 1\n", "\nY: 2\n", ["F", "X", "F", "Y"], 0, 1, ("F", 1), "", ""),
+}
+for _n in ("bytes", "assigned", "built"):
+    SHAPES[_n] = SHAPES["mid"]
+
+# (shape, way of obtaining the list object, block style); the first is the route of the main walk
+ROUTES = [("mid", "item", "with")] + \
+    [(sh, "item", "with") for sh in ("mid-par", "dup-other", "dup-F", "bytes", "assigned", "built")] + \
+    [("mid", a, "with") for a in ("get", "items", "values", "tuple-key", "other-case", "name-token", "no-auto",
+                                  "interpret-as", "interpret", "keep-comments")] + \
+    [("mid", "item", b) for b in ("enter-exit", "exitstack", "same-list")] + \
+    [("dup-F", "no-auto", "with"), ("dup-F", "tuple-last", "enter-exit"), ("dup-F", "name-token", "same-list"),
+     ("dup-F", "interpret-as", "exitstack"), ("dup-other", "values", "same-list"), ("mid-par", "interpret", "enter-exit"),
+     ("built", "get", "exitstack"), ("assigned", "keep-comments", "same-list")]
 
 
 def _wellformed(f, place="mid"):
     if f.find_first_error_element() is not None:
         return False
+    sh = SHAPES[place]
     ps = list(f)
-    return len(ps) == 1 and [str(k) for k in ps[0].keys()] == (["X", "F", "Y"] if place == "mid" else ["X", "F"])
+    return len(ps) == sh[4] and [str(k) for k in ps[sh[3]].keys()] == sh[2]
 
 
 class _Abort(Exception):
     pass
 
 
+class _Found(Exception):
+    """carries a violation out of a block body (never seen by the library as anything but 'an exception')"""
+
+
+def _one_line_formatter(name, sep_token, formatter_tokens):
+    """a custom formatter: every value on the first line, comments dropped (formatters may do that)"""
+    first = True
+    for t in formatter_tokens:
+        if not t.is_value:
+            continue
+        if not first and not sep_token.is_whitespace:
+            yield sep_token
+        yield " "
+        yield t
+        first = False
+    yield "\n"
+
+
+def _mkview(p, I, access):
+    if access == "no-auto":
+        return p.as_interpreted_dict_view(I, auto_resolve_ambiguous_fields=False)
+    return p.as_interpreted_dict_view(I)
+
+
+def _get_list(p, view, I, access, shape):
+    """the list object of the list field, obtained the way `access` says"""
+    key = SHAPES[shape][5]
+    name, idx = key if isinstance(key, tuple) else (key, 0)
+    if access in ("item", "no-auto"):
+        return view[key]
+    if access == "get":
+        return view.get(key)
+    if access == "items":
+        return [x for _k, x in view.items()][SHAPES[shape][2].index(name)]
+    if access == "values":
+        return list(view.values())[SHAPES[shape][2].index(name)]
+    if access == "tuple-key":
+        return view[(name, idx)]
+    if access == "tuple-last":
+        return view[(name, -1)]
+    if access == "other-case":
+        return view[(name.lower(), idx) if isinstance(key, tuple) else name.lower()]
+    if access == "name-token":
+        return view[p.get_kvpair_element(key).field_token]
+    if access == "interpret-as":
+        return p.get_kvpair_element(key).interpret_as(I)
+    if access == "interpret":
+        return I.interpret(p.get_kvpair_element(key))
+    if access == "keep-comments":
+        return p.get_kvpair_element(key).interpret_as(I, discard_comments_on_read=False)
+    raise KeyError(access)
+
+
+def _run_block(obj, block, body):
+    if block in ("with", "same-list"):
+        with obj as lst:
+            body(lst)
+    elif block == "enter-exit":
+        lst = obj.__enter__()
+        try:
+            body(lst)
+        except BaseException:
+            if not obj.__exit__(*sys.exc_info()):
+                raise
+        else:
+            obj.__exit__(None, None, None)
+    elif block == "exitstack":
+        with contextlib.ExitStack() as st:
+            body(st.enter_context(obj))
+    else:
+        raise KeyError(block)
+
+
+def _open(case):
+    """-> (file, paragraph, document text, value text) for the case's document shape"""
+    from debian._deb822_repro import parse_deb822_file
+    from debian._deb822_repro.parsing import Deb822FileElement, Deb822ParagraphElement
+    shape = case.get("shape", case.get("place", "mid"))
+    v = case["value"]
+    sh = SHAPES[shape]
+    doc = sh[0] + "F:" + v + sh[1]
+    if shape == "bytes":
+        f = parse_deb822_file(doc.encode("utf-8").splitlines(True), accept_files_with_error_tokens=True)
+    elif shape == "assigned":
+        f = _parse("X: 1\nF: q\nY: 2\n")
+        next(iter(f))["F"] = v
+    elif shape == "built":
+        f = Deb822FileElement.new_empty_file()
+        f.append(Deb822ParagraphElement.from_dict({"X": "1", "F": v, "Y": "2"}))
+    else:
+        f = _parse(doc, dup=shape.startswith("dup"))
+    if shape in ("assigned", "built"):
+        doc = f.dump()
+        if not doc.startswith(sh[0] + "F:") or not doc.endswith(sh[1]):
+            raise _Found(("list/route-%s/setup" % shape, sh[0] + "F:..." + sh[1], doc))
+        v = doc[len(sh[0]) + 2:len(doc) - len(sh[1])]
+    return f, shape, doc, v
+
+
+def _dump_routes(f, p, shape, out):
+    """every other way of writing the document (or the paragraph, or the field) out, against dump()"""
+    sh = SHAPES[shape]
+    key = sh[5]
+    res = []
+    res.append(("convert_to_text", f.convert_to_text(), out))
+    b = io.BytesIO()
+    f.dump(b)
+    res.append(("dump-fd", b.getvalue(), out.encode("utf-8")))
+    res.append(("iter-parts", "".join(x.convert_to_text() for x in f.iter_parts()), out))
+    ptxt = out[len(sh[6]):len(out) - len(sh[7])]
+    res.append(("paragraph-dump", p.dump(), ptxt))
+    b = io.BytesIO()
+    p.dump(b)
+    res.append(("paragraph-dump-fd", b.getvalue(), ptxt.encode("utf-8")))
+    if sh[1]:
+        res.append(("field-text", p.get_kvpair_element(key).convert_to_text(), out[len(sh[0]):len(out) - len(sh[1]) + 1]))
+    return [(n, want, got) for n, got, want in res if got != want]
+
+
 def run_case(case):
     """-> (violations, final model list or None)"""
-    interp, v, sessions = case["interp"], case["value"], case["sessions"]
-    I = _interp(interp)
-    place = case.get("place", "mid")
-    doc = "X: 1\nF:" + v + ("\nY: 2\n" if place == "mid" else "")
     try:
-        f = _parse(doc)
+        return _run_case(case)
+    except _Found as fd:
+        return [fd.args[0]], None
+
+
+def _run_case(case):
+    interp, sessions = case["interp"], case["sessions"]
+    I = _interp(interp)
+    access, block = case.get("access", "item"), case.get("block", "with")
+    reformat = case.get("reformat")
+    tag = case.get("tag", "")
+    try:
+        f, place, doc, v = _open(case)
         ok = _wellformed(f, place)
+    except _Found:
+        raise
     except Exception as e:
-        return [("list/valid-doc-raises/" + interp, "parses", "%s: %s" % (type(e).__name__, e))], None
+        return [(tag + "list/valid-doc-raises/" + interp, "parses", "%s: %s" % (type(e).__name__, e))], None
     if not ok:
-        return [("list/valid-doc-rejected/" + interp, "one paragraph X F Y, no error element", f.dump())], None
-    p = next(iter(f))
+        return [(tag + "list/valid-doc-rejected/" + interp, "one paragraph X F Y, no error element", f.dump())], None
+    sh = SHAPES[place]
+    key = sh[5]
+    p = list(f)[sh[3]]
     vals = split_oracle(v, interp)
+    if place in ("assigned", "built"):
+        # (the dict interface trims the first line of an assigned value: 'a \n a' is stored as ' a\n a')
+        first, nl, rest = case["value"].partition("\n")
+        want = split_oracle(first.strip() + nl + rest, interp)
+        if vals != want:
+            return [(tag + "list/route-%s/setup" % place, want, "%r in %r" % (vals, doc))], None
     if not sessions:
         try:
-            with p.as_interpreted_dict_view(I)["F"] as lst:
-                got = list(lst)
+            obj = _get_list(p, _mkview(p, I, access), I, access, place)
+            got = []
+            _run_block(obj, block, lambda lst: got.extend(lst))
+            truth = bool(obj)
         except Exception as e:
-            return [("list/read-raises/" + interp, vals, "%s: %r" % (type(e).__name__, e))], None
+            return [(tag + "list/read-raises/" + interp, vals, "%s: %r" % (type(e).__name__, e))], None
         if got != vals:
-            return [("list/read/" + interp, vals, got)], None
+            return [(tag + "list/read/" + interp, vals, got)], None
+        if truth != bool(vals):
+            return [(tag + "list/read-bool/" + interp, bool(vals), truth)], None
         if f.dump() != doc:
-            return [("list/noop-changed/" + interp, doc, f.dump())], None
+            return [(tag + "list/noop-changed/" + interp, doc, f.dump())], None
         return [], vals
     last = None
     views = case.get("views", "fresh")
-    vobjs = [p.as_interpreted_dict_view(I), p.as_interpreted_dict_view(I)]
+    vobjs = [_mkview(p, I, access), _mkview(p, I, access)]
     prev_dump = doc
+    the_list = None
     for si, sess in enumerate(sessions):
-        view = p.as_interpreted_dict_view(I) if views == "fresh" else vobjs[0] if views == "same" else vobjs[si % 2]
+        view = _mkview(p, I, access) if views == "fresh" else vobjs[0] if views == "same" else vobjs[si % 2]
         abort = bool(sess) and tuple(sess[-1]) == ("abort",)
         edits = sess[:-1] if abort else sess
         before = vals
         last = ("noop",)
+        state = {"vals": vals, "last": last}
+        do_reformat = reformat if (reformat and vals) else None
+
+        def body(lst, edits=edits, state=state, do_reformat=do_reformat):
+            erefs = None
+            ids = list(range(len(state["vals"])))
+            if any(e[0].startswith("eref") for e in edits):
+                erefs = list(lst.iter_value_references())
+            if do_reformat == "default":
+                lst.reformat_when_finished()
+            elif do_reformat == "custom":
+                lst.value_formatter(_one_line_formatter, force_reformat=True)
+            elif do_reformat == "custom-noforce":
+                lst.value_formatter(_one_line_formatter)
+            for e in edits:
+                state["last"] = e
+                state["vals"], ids = model_edit(state["vals"], e, ids)
+                evals = None
+                if e[0] == "eref-read":
+                    evals = {i: x for i, x in zip(ids, state["vals"]) if i is not None}
+                impl_edit(lst, e, erefs, evals)
+                if case.get("observe"):
+                    got = list(lst)
+                    if got != state["vals"]:
+                        raise _Found((tag + "list/%s/wrong-open-list/%s" % (e[0], interp), state["vals"], got))
+            if abort:
+                raise _Abort()
+
         try:
-            with view["F"] as lst:
-                for e in edits:
-                    last = e
-                    vals = model_edit(vals, e)
-                    impl_edit(lst, e)
-                    if case.get("observe"):
-                        got = list(lst)
-                        if got != vals:
-                            return [("list/%s/wrong-open-list/%s" % (e[0], interp), vals, got)], None
-                if abort:
-                    raise _Abort()
+            try:
+                if block == "same-list":
+                    if the_list is None:
+                        the_list = _get_list(p, view, I, access, place)
+                    obj = the_list
+                else:
+                    obj = _get_list(p, view, I, access, place)
+                _run_block(obj, block, body)
+            finally:
+                vals, last = state["vals"], state["last"]
         except _Abort:
             vals = before          # a with-block left by an exception writes nothing
             last = ("abort",)
+        except _Found:
+            raise
         except ValueError as ex:
             if not vals:
                 return [], None           # removing the only value may be refused
-            return [("list/%s/raises/%s" % (last[0], interp), vals, "ValueError: %s" % ex)], None
+            return [(tag + "list/%s/raises/%s" % (last[0], interp), vals, "ValueError: %s" % ex)], None
         except Exception as ex:
-            return [("list/%s/raises/%s" % (last[0], interp), vals, "%s: %r" % (type(ex).__name__, ex))], None
+            return [(tag + "list/%s/raises/%s" % (last[0], interp), vals, "%s: %r" % (type(ex).__name__, ex))], None
         out = f.dump()
-        sig = "list/%s/%%s/%s" % (last[0], interp)
-        if (abort or all(e[0] == "refread" for e in edits)) and out != prev_dump:
+        sig = tag + "list/%s/%%s/%s" % (last[0], interp)
+        unchanged = abort or all(e[0] in ("refread", "eref-read") for e in edits)
+        if unchanged and do_reformat in (None, "custom-noforce") and out != prev_dump:
             return [(sig % "document-changed", prev_dump, out)], None
-        if place != "mid":
+        if case.get("dumps"):
+            for name, want, got in _dump_routes(f, p, place, out):
+                return [(sig % ("via-" + name), want, got)], None
+        if place == "last-open":
             continue          # (only no-change sessions are run on the unterminated last field)
         prev_dump = out
         try:
-            f2 = _parse(out)
-            ok = _wellformed(f2)
+            f2 = _parse(out, dup=place.startswith("dup"))
+            ok = _wellformed(f2, place)
         except Exception as ex:
             return [(sig % "invalid-doc", "parses", "%s: %r on %r" % (type(ex).__name__, ex, out))], None
         if not ok:
             return [(sig % "invalid-doc", "one paragraph X F Y, no error element", out)], None
-        if not vals and [e for e in edits if e[0] != "refread"] and not abort:
+        if not vals and not unchanged:
             return [(sig % "empty-list-accepted", "ValueError or a non-empty list", out)], None
-        if not out.startswith("X: 1\nF:") or not out.endswith("\nY: 2\n") or out.count("\nY: 2\n") != 1:
-            return [(sig % "nonlocal", "X: 1\\nF:...\\nY: 2\\n", out)], None
-        p2 = next(iter(f2))
+        if not out.startswith(sh[0] + "F:") or not out.endswith(sh[1]) or out.count(sh[1]) != 1:
+            return [(sig % "nonlocal", sh[0] + "F:..." + sh[1], out)], None
+        p2 = list(f2)[sh[3]]
         if p2["X"] != "1" or p2["Y"] != "2":
             return [(sig % "nonlocal", "X=1 Y=2", (p2["X"], p2["Y"]))], None
         try:
-            got = list(p2.as_interpreted_dict_view(I)["F"])
-            live = list(p.as_interpreted_dict_view(I)["F"])
-            same = list(view["F"]) if views != "fresh" else live
+            got = list(p2.as_interpreted_dict_view(I)[key])
+            live = list(_get_list(p, _mkview(p, I, access), I, access, place))
+            same = list(_get_list(p, view, I, access, place)) if views != "fresh" else live
+            # (a block left by an exception keeps its unwritten edits in the list object: not read then)
+            closed = list(obj) if case.get("closed") and not abort else vals
         except Exception as ex:
             return [(sig % "reread-raises", vals, "%s: %r on %r" % (type(ex).__name__, ex, out))], None
         if got != vals:
@@ -260,6 +549,8 @@ def run_case(case):
             return [(sig % "wrong-live-list", vals, live)], None
         if same != vals:
             return [(sig % "wrong-list-through-the-same-view", vals, same)], None
+        if closed != vals:
+            return [(sig % "wrong-closed-list", vals, closed)], None
     return [], vals
 
 
@@ -297,11 +588,131 @@ def run_sweep(part, interp, chars):
     return part
 
 
+def _count(part, case, rank, transition=True):
+    bad, vals = run_case(case)
+    part.evaluations += 1
+    part.traces += 1
+    if transition:
+        part.transitions += 1
+    for sig, exp, obs in bad:
+        part.violation(sig, case, exp, obs, rank=rank)
+    return bad, vals
+
+
+def route_tag(route):
+    d = ROUTES[0]
+    return "via-" + "+".join(x for x, y in zip(route, d) if x != y) + "/"
+
+
+def run_route(part, interp, route, tier, seed):
+    """one non-default route to the list (document shape, way of obtaining the list object, block style) judged by the
+    same oracle as the default route"""
+    shape, access, block = route
+    Lread, Ledit, Ltwo = (3, 2, 1) if tier == "quick" else (4, 3, 2)
+    tag = route_tag(route)
+    for first in PIECES[interp](seed):
+        for v, L in layouts(interp, first, Lread, seed):
+            if access == "keep-comments" and "\n#" in v:
+                continue
+            base = {"interp": interp, "value": v, "shape": shape, "access": access, "block": block, "tag": tag,
+                    "dumps": True, "closed": True}
+            part.states += 1
+            bad, vals = _count(part, dict(base, sessions=[]), L)
+            if bad:
+                continue
+            part.outcomes["route-read/" + tag[4:-1]] += 1
+            if L == 2:
+                part.sample(dict(base, sessions=[]))
+            if L > Ledit:
+                continue
+            for sessions in ([[("refread",)], []], [[]]):
+                _count(part, dict(base, sessions=sessions, views="same"), L)
+            for e1 in edits_for(vals, interp):
+                bad, v1 = _count(part, dict(base, sessions=[[e1]], observe=True), 10 * L + 1)
+                part.states += 1
+                if bad or v1 is None:
+                    continue
+                part.outcomes["route-edit/" + tag[4:-1]] += 1
+                part.nontrivial += 1
+                if block != "same-list":
+                    if L <= Ltwo:
+                        # a block left by an exception, then the same edit again through the same view object
+                        _count(part, dict(base, sessions=[[e1, ("abort",)], [e1]], views="same"), 10 * L + 2)
+                    continue
+                # one list object entered again for a second block (the route is the pure one: every second edit; or a
+                # combination with another shape / access: second edits on the shortest layouts only)
+                if L > Ltwo and (shape, access) != ("mid", "item"):
+                    continue
+                for e2 in [None] + list(edits_for(v1, interp)):
+                    _count(part, dict(base, sessions=[[e1], [e2] if e2 else []]), 10 * L + 2)
+                    part.states += 1
+                _count(part, dict(base, sessions=[[], [e1]]), 10 * L + 2)
+    part.max_depth = max(part.max_depth, 2)
+    return part
+
+
+def run_extra(part, interp, first, tier, seed):
+    """references taken at the start of a block, reformatting on write-back, layout calls ahead of an append"""
+    L1, L2, L3 = (3, 2, 1) if tier == "quick" else (4, 3, 2)
+    for v, L in layouts(interp, first, L1, seed):
+        base = {"interp": interp, "value": v, "dumps": True, "closed": True}
+        vals = split_oracle(v, interp)
+        part.states += 1
+        e1s = list(edits_for(vals, interp))
+        # --- early references: [e1, an edit through a reference taken before e1, read every surviving reference]
+        ids = list(range(len(vals)))
+        for e1 in e1s + [("eref-set", i, "y") for i in ids] + [("eref-remove", i) for i in ids]:
+            v1, ids1 = model_edit(vals, e1, ids)
+            alive = [i for i in ids1 if i is not None]
+            e2s = [None]
+            if L <= L2:
+                e2s += [("eref-set", i, "w") for i in alive] + [("eref-remove", i) for i in alive]
+            for e2 in e2s:
+                edits = [e1] + ([e2] if e2 else []) + [("eref-read",)]
+                bad, _x = _count(part, dict(base, sessions=[edits], tag="early-refs/"), 10 * L + len(edits))
+                part.states += 1
+                part.outcomes["early-refs/" + ("violation" if bad else "refused" if _x is None else e2[0] if e2 else "read")] += 1
+        # --- layout calls ahead of an append
+        for pre in PRE_APPEND:
+            e = ("append-after-" + pre, "z")
+            bad, _x = _count(part, dict(base, sessions=[[e]], observe=True), 10 * L + 1)
+            part.outcomes["append-after/" + ("violation" if bad else pre)] += 1
+            if L <= L3 and not bad:
+                if "nl" not in pre:
+                    # (append_newline() is refused right after the newline a write-back leaves at the end of the list)
+                    _count(part, dict(base, sessions=[[e], [e]], block="same-list"), 10 * L + 2)
+                for e2 in edits_for(vals + ["z"], interp):
+                    _count(part, dict(base, sessions=[[e], [e2]]), 10 * L + 2)
+        # --- reformatting
+        _count(part, dict(base, sessions=[[]], reformat="custom-noforce", tag="formatter-set-no-change/"), L)
+        if not vals:
+            continue
+        for rf in ("default", "custom"):
+            tag = "reformat-%s/" % rf
+            if rf == "custom" and L > L2:
+                continue
+            for e1 in [None] + e1s:
+                bad, v1 = _count(part, dict(base, sessions=[[e1] if e1 else []], reformat=rf, tag=tag, observe=True), 10 * L + 1)
+                part.states += 1
+                part.outcomes[tag + ("violation" if bad else "refused" if v1 is None else e1[0] if e1 else "no-edit")] += 1
+                if bad or v1 is None or L > L3:
+                    continue
+                part.nontrivial += 1
+                for e2 in [None] + list(edits_for(v1, interp)):
+                    _count(part, dict(base, sessions=[[e1] if e1 else [], [e2] if e2 else []], reformat=rf, tag=tag), 10 * L + 2)
+    part.max_depth = max(part.max_depth, 3)
+    return part
+
+
 def run_unit(u, tier, seed):
     part = core.Part()
     interp = u["interp"]
     if "sweep" in u:
         return run_sweep(part, interp, u["sweep"])
+    if "route" in u:
+        return run_route(part, interp, tuple(u["route"]), tier, seed)
+    if "extra" in u:
+        return run_extra(part, interp, u["extra"], tier, seed)
     Lread, L1, L2, L3 = (4, 4, 3, 0) if tier == "quick" else (5, 5, 4, 2)
     Lv = 2 if tier == "quick" else 3
     for v, L in layouts(interp, u["first"], max(Lread, L1), seed):
@@ -413,8 +824,12 @@ def replay(case):
 
 
 def repro_py(case):
+    shape = case.get("shape", case.get("place", "mid"))
+    sh = SHAPES[shape]
     return ("from debian._deb822_repro import parse_deb822_file, LIST_SPACE_SEPARATED_INTERPRETATION as WS, "
             "LIST_COMMA_SEPARATED_INTERPRETATION as CS\n"
-            "doc = %r\nf = parse_deb822_file(doc.splitlines(True)); p = next(iter(f))\n"
-            "with p.as_interpreted_dict_view(%s)['F'] as lst:\n    print(list(lst))  # sessions: %r\nprint(repr(f.dump()))\n"
-            % ("X: 1\nF:" + case["value"] + "\nY: 2\n", "WS" if case["interp"] == "ws" else "CS", case["sessions"]))
+            "# route: document shape %r, list obtained by %r, block style %r, reformat %r (see mc/props/c11.py ROUTES)\n"
+            "doc = %r\nf = parse_deb822_file(doc.splitlines(True), accept_files_with_duplicated_fields=True); p = list(f)[%d]\n"
+            "with p.as_interpreted_dict_view(%s)[%r] as lst:\n    print(list(lst))  # sessions: %r\nprint(repr(f.dump()))\n"
+            % (shape, case.get("access", "item"), case.get("block", "with"), case.get("reformat"),
+               sh[0] + "F:" + case["value"] + sh[1], sh[3], "WS" if case["interp"] == "ws" else "CS", sh[5], case["sessions"]))
